@@ -1,12 +1,24 @@
 """C18 — PCM byte codecs: chunks.struct / chunks.array and WavStream.
 
-Tie: (a) `chunks.<strategy>` for formats b h i f d x byte orders (omitted, None, "@", "=", "<", ">",
-"!") x sizes x lengths, bytes compared exactly with the Lean model of that strategy, with the
-Lean specification (packed padded sequence cut every `size` items) and with Python's own
-`struct.pack` of the padded sequence; (b) WAV files written with the standard `wave` module
-(8/16/24/32 bit x mono/stereo x extremes of each width) read back through `WavStream` (keep
-True/False), values compared exactly (normalised values are exact dyadic floats), header
-attributes and the open/closed state of the file after k `next()` calls; (c) "concurrent" cases:
+Tie: (a) `chunks.<strategy>` (and the StrategyDict `chunks` itself) for formats b h i f d and the other
+integer formats of the struct table (B H I l L q Q) x byte orders (omitted, None, "@", "=", "<", ">",
+"!") x sizes x lengths x value spellings (int, float, bool, Fraction) x call shapes (keywords,
+positionals, mixed, defaults omitted: size -> chunks.size, dfmt -> "f", padval -> 0.) x sources (list,
+tuple, iterator, Stream, generator, ENDLESS generator with the number of items pulled), bytes compared
+exactly with the Lean model of that strategy, with the Lean specification (packed padded sequence cut
+every `size` items) and with Python's own `struct.pack` of the padded sequence; (b) WAV files written
+with the standard `wave` module AND by the harness' own RIFF writer (extra chunks such as LIST before /
+between / after fmt and data, odd sizes, WAVE_FORMAT_EXTENSIBLE, header bits that are no PCM width,
+declared data / RIFF sizes that lie, files the reader must refuse) read back through `WavStream` (keep
+True/False): the Lean RIFF reader (`parseRiff`) is given the BYTES OF THE FILE and must find rate,
+channels, bits and the data chunk itself; values compared exactly (normalised values are exact dyadic
+floats), header attributes and the open/closed state of the file after k `next()` calls; (c) "res"
+cases (c18_res.py): the file life-cycle on REAL handles -- the file handed over as str / bytes /
+path-like name, as a buffered or raw OS file object of the caller, or as BytesIO; a history of `next()`
+calls and collections of the stream object; after the constructor and after every event the
+descriptors of the process on the file (/proc/self/fd), every file object `builtins.open` created on
+the path (open flag, number of close() calls), ResourceWarnings, the caller's own handles and getfp()
+are compared with the Lean state machine `rTrace`; (d) "concurrent" cases:
 2-3 chunk generators and/or WavStreams alive at once, advanced by `next()` in the interleaving
 given by the case (a schedule list), including re-entrant use (the source iterable of one chunk
 generator advances another generator when asked for its k-th item, i.e. while the first one is
@@ -23,27 +35,46 @@ from common import enc, err_kind
 from props import c18_res
 
 ID = "C18"
-RULE = ("chunks: exhaustive grid (format x byte-order spelling x size 1..9 x length 0..20 x strategy) with "
-        "range extremes among the values, plus random larger cases and a small malformed stream (value out "
-        "of range, float into an integer format, default float pad with integer formats); wav: every width x "
-        "channel count x keep x 0..6 frames of extreme values, plus random files up to 40 frames and truncated "
-        "files; concurrent: a grid (strategy pair x format x size 2..4 x every position of the re-entrant "
+RULE = ("chunks: exhaustive grid (format b h i f d x byte-order spelling x size 1..9 x length 0..20 x strategy) and a "
+        "second grid over B H I l L q Q, range extremes among the values, plus random larger cases (value spellings "
+        "int/float/bool/Fraction, call shapes keyword/positional/mixed/StrategyDict entry, defaults omitted, sources "
+        "list/tuple/iterator/Stream/counted generator/endless generator) and a malformed stream (value out of range, "
+        "float or Fraction into an integer format, default float pad with integer formats); wav: every width x "
+        "channel count x keep x 0..6 frames of extreme values, random files up to 40 frames, truncated files, and "
+        "files of the harness' own RIFF writer (extra chunks, odd sizes, extensible format, header bits 1..64, lying "
+        "sizes, refused files) parsed by the Lean RIFF reader; res: a grid (6 ways of handing the file over x width x "
+        "channels x keep x 0/1/3 frames x 9 event histories x 2 observers) plus constructor failures, truncated "
+        "files and random histories of next()/collect events; concurrent: a grid (strategy pair x format x size 2..4 "
+        "x every position of the re-entrant "
         "advance x length of the other generator) plus random groups of 2-3 generators (same / different "
         "strategy, dfmt, size, byte order; WavStreams over the same / different files) with random schedules, "
         "re-entrant sources, re-chunking pipelines, partial consumption and malformed members; "
-        "non-trivial = at least one item in the input sequence / one sample in the file (concurrent: in some "
-        "generator); distinct = distinct JSON case")
+        "non-trivial = at least one item in the input sequence / one sample in the file / one event in the history "
+        "(concurrent: in some generator); distinct = distinct JSON case")
 TRUSTED = [
     "hand-written Lean model ALV/Model/C18.lean of lazy_io.chunks (struct and array strategies) and "
     "lazy_wav.WavStream (modelled, not verified: struct.Struct, array.array, wave.Wave_read.readframes, "
     "generator protocol, try/finally)",
     "IEEE-754 encoders of the formats f and d are abstract in the theorems (parameter `le`, hypothesis "
     "dec (enc x) = x for the round trip); the driver instantiates them with Lean's Float.toBits / "
-    "Float.toFloat32 and the tie compares their bytes with Python's struct on every generated float",
+    "Float.toFloat32 and the tie compares their bytes with Python's struct on every generated float; a Fraction is "
+    "sent with the double Python's float() makes of it",
     "the model of chunks.array includes the repair proposed for D5 (tobytes, byteswap when the requested "
     "order is not native, zero-initialised working array); the unrepaired code cannot satisfy the property",
-    "the byte layout of the PCM files is produced by the standard `wave` module from bytes built by "
-    "int.to_bytes in this harness; the Lean spec's pcmData is compared with those bytes on every case",
+    "file life-cycle (ALV/Model/C18Res.lean): a hand-written state machine of wave.open / Wave_read.close / "
+    "Wave_read.__del__ / the try-finally of block_reader / CPython's finalisation of a suspended generator and of "
+    "an unreferenced file object; the theorems are about that machine, the tie compares every state of it with "
+    "the real process: descriptors listed in /proc/self/fd, file objects created through a patched builtins.open "
+    "(a BufferedReader subclass counting close() calls, kept alive by the harness, so 'abandoned' = still open "
+    "when the stream object is gone) or, unpatched, the ResourceWarnings; 'collect' is `del` + gc.collect() "
+    "(WavStream sits in a reference cycle: dropping the last reference alone closes nothing -- tallied, not demanded)",
+    "RIFF container (ALV/Model/C18Riff.lean): hand-written model of Wave_read.initfp / _Chunk (not proved against "
+    "a specification of RIFF beyond the small theorems C18.27-28; riff_parse_build_PENDING is stated, not proved); "
+    "it is run by the driver on the bytes of every file of the res cases and of the own-writer wav cases and must "
+    "agree with the real wave module on header fields, data chunk and the exception class of a refused file",
+    "the byte layout of the PCM files is produced by the standard `wave` module (or the harness' RIFF writer, "
+    "checked equal to it on plain files) from bytes built by int.to_bytes in this harness; the Lean spec's "
+    "pcmData is compared with those bytes on every case",
     "isolation of generators: in the Lean model chunksStruct / chunksArray / wavStream are pure functions of "
     "one call's arguments, so 'the output depends only on the generator's own arguments, whatever other "
     "generators are alive or interleaved' holds there by construction (no theorem is needed or stated); for "
@@ -55,26 +86,43 @@ TRUSTED = [
 ASSUMPTIONS = [
     "size >= 1; values representable in the format (integers in range, doubles within the float32 range "
     "for 'f'); other inputs only in the malformed stream, where the exception class is compared",
-    "WAV files are well-formed PCM (data length a multiple of the frame size), 1 or 2 channels, 8/16/24/32 "
-    "bits; truncated files are compared with the model only",
-    "native byte order of the machine is read from sys.byteorder and passed to the model",
+    "WAV files inside the property: well-formed PCM (data length a multiple of the frame size), 1 or 2 channels, "
+    "8/16/24/32 bits, any extra chunks; truncated files, lying sizes, other header widths (rounded up to whole "
+    "bytes; no unpacker beyond 32 bits: KeyError and the file stays open until the stream object is collected), "
+    "more channels and refused files are compared with the model only",
+    "formats l / L under a standard-size prefix (4 bytes for struct, the machine's long in an array: the strategies "
+    "differ, as the docstring warns) are outside the property's formats and compared with the model only",
+    "name kinds: a str is a name; bytes and path-like names are refused by wave.open today (AttributeError, "
+    "nothing opened) -- the tie accepts either 'refused, nothing opened' or 'accepted and then exactly the "
+    "life-cycle of a name'",
+    "native byte order of the machine is read from sys.byteorder, the size of the machine's long from "
+    "struct.calcsize('l'); both are passed to the model; /proc/self/fd lists the descriptors of the process",
 ]
 
 MANIFEST = {
-    "text": ("Lean 4 theorems, for all inputs: two's-complement pack/unpack round trip on the full signed range of "
+    "text": ("Lean 4 theorems, for all inputs: two's-complement and unsigned pack/unpack round trip on the full range of "
              "every width and both byte orders; the 24-bit WAV path sign-extends every three-byte string; WavStream "
              "over any well-formed 8/16/24/32-bit mono/stereo PCM data chunk yields exactly the stored integers "
-             "(keep) or those integers (8 bit: minus 128) / 2^(bits-1), always in [-1,1); the file is closed exactly "
-             "when the end is reached; chunks.struct and chunks.array (repaired as proposed for D5) both equal the "
+             "(keep) or those integers (8 bit: minus 128) / 2^(bits-1), always in [-1,1); bits = 8*ceil(header bits/8); "
+             "file life-cycle as a state machine over the handle table of the process: a stream opened by name owns "
+             "exactly one handle, closed by exactly one close() once a next() returned StopIteration or a decoding "
+             "error (stream object alive) or once the object is collected, never earlier, never abandoned; a handle of "
+             "the caller (file object, BytesIO, anything else open) is never touched; a failing constructor leaves "
+             "nothing open; chunks.struct and chunks.array (repaired as proposed for D5) both equal the "
              "specification 'pack the sequence followed by (-len) mod size pad values, cut every size items' for "
              "every size, length, byte order, machine order and element encoder, including where they stop on an "
-             "unpackable item; tied to /repo by a differential correspondence on every check, which also runs "
-             "groups of 2-3 chunk generators / WavStreams alive at once (interleaved by a schedule, re-entrant "
-             "sources, re-chunking pipelines, same file read twice) and demands of each the output of that call alone"),
+             "unpackable item, and are lazy (one block in, one chunk out); tied to /repo by a differential "
+             "correspondence on every check: bytes of both strategies over the integer and float formats of the "
+             "struct table, spellings, call shapes and sources; a Lean RIFF reader parsing the very file bytes; the "
+             "life-cycle machine against /proc/self/fd, spied file objects and ResourceWarnings; groups of 2-3 chunk "
+             "generators / WavStreams alive at once, each compared with the output of that call alone"),
     "note": ("Trusted: Lean kernel, axioms propext/Classical.choice/Quot.sound, the Python harness; struct, array, "
-             "wave and the IEEE-754 encoders of f/d are not modelled (the theorems take the element encoder as a "
-             "parameter; the driver's Float.toBits / toFloat32 bytes are compared with struct.pack on every float "
-             "case).  chunks.array in /repo is defective today (D5, D5b: known findings with a proposed fix); its "
+             "wave and the IEEE-754 encoders of f/d are not modelled beyond what the hand-written models say (the "
+             "theorems take the element encoder as a parameter; the driver's Float.toBits / toFloat32 bytes are "
+             "compared with struct.pack on every float case).  The resource theorems are about the modelled state "
+             "machine (wave.open, Wave_read.close/__del__, generator finalisation), tied state by state to real "
+             "descriptors.  riff_parse_build_PENDING (every well-formed file is read back exactly) is stated, not "
+             "proved.  chunks.array in /repo was defective (D5, D5b: fixed); its "
              "model is the repaired code.  Independence of a generator from other live generators is true by "
              "construction in the (pure) model and is checked for /repo by single-threaded interleavings only; "
              "races that need a pre-emptive thread switch inside one call are not observable by the tie."),
@@ -910,6 +958,25 @@ def extra_checks(eng):
     ok = all(array.array(f).itemsize == WIDTH[f] for f in "bhifd")
     yield ("array-itemsizes-standard", ok, "array.array itemsize of b h i f d is not 1 2 4 4 8 on this machine")
     yield ("byteorder-known", sys.byteorder in ("little", "big"), "sys.byteorder=%r" % (sys.byteorder,))
+    ok = array.array("l").itemsize == LONG and all(struct.calcsize(p + f) == 4 for f in "lL" for p in STD_ORDERS) \
+        and all(struct.calcsize(p + f) == WIDTH[f] == array.array(f).itemsize for f in "BHIqQ" for p in ("", "@", "=", "<", ">", "!"))
+    yield ("struct-array-sizes-other-formats", ok, "sizes of B H I q Q l L are not the modelled ones")
+    # the harness' own RIFF writer writes what the wave module writes (plain files)
+    bad = []
+    for bits in (8, 16, 24, 32):
+        for ch in (1, 2):
+            c = wav_case(bits, ch, True, [1, 2, 3, 4], rate=22050)
+            if wav_file_bytes(c) != c18_res.riff_bytes(c):
+                bad.append((bits, ch))
+    yield ("own-riff-writer-equals-wave-module", not bad, "plain files differ for %r" % (bad,))
+    # the observer of the res cases sees a descriptor appear and disappear
+    path = os.path.realpath(os.path.join(_tmpdir(), "probe.bin"))
+    f = open(path, "wb")
+    seen = path in c18_res.fd_targets().values()
+    f.close()
+    gone = path not in c18_res.fd_targets().values()
+    os.remove(path)
+    yield ("proc-self-fd-observer", seen and gone, "/proc/self/fd does not show an open file (seen=%s gone=%s)" % (seen, gone))
 
 
 # ==============================================================================================
